@@ -4,7 +4,7 @@
 #   build.sh harness [features]   Rust harness against /repo's current working tree
 #   build.sh all
 set -e
-V=/verif
+V=$(cd "$(dirname "$0")/.." && pwd)
 C=$V/.cache
 export CARGO_NET_OFFLINE=true
 mkdir -p $C/ocaml $C/logs
